@@ -22,9 +22,9 @@ PARTIAL = [
 WORKER = os.path.join(HERE, "history_worker.py")
 
 
-def run_worker(files, listdir_seed=None, timeout=120):
+def run_worker(files, listdir_seed=None, timeout=120, R=None, reclimit=None):
     env = dict(os.environ, PYTHONPATH=REPO)
-    p = subprocess.run([PY, WORKER], input=json.dumps({"files": files, "listdir_seed": listdir_seed}),
+    p = subprocess.run([PY, WORKER], input=json.dumps({"files": files, "listdir_seed": listdir_seed, "R": R, "reclimit": reclimit}),
                        stdout=subprocess.PIPE, stderr=subprocess.PIPE, text=True, timeout=timeout, env=env)
     if p.returncode != 0:
         return {"error": p.stderr[-400:]}
@@ -33,6 +33,11 @@ def run_worker(files, listdir_seed=None, timeout=120):
 
 def _w(args):
     return run_worker(*args)
+
+
+def _wk(args):
+    files, kw = args
+    return run_worker(files, **kw)
 
 
 def special_files():
@@ -59,6 +64,8 @@ def special_files():
     out.append(("fatal2.c", "int\tmain(void)\n{\n\treturn (0);\n}\n) )"))
     out.append(("many.c", h("many.c") + "".join(f"\nint\tf{i}(void)\n{{\n\treturn ({i});\n}}\n" for i in range(7))))
     out.append(("vars.c", h("vars.c") + "\nint\tf(int aa, int bb)\n{\n\tint\tcc;\n\tint\tdd;\n\n\tcc = aa;\n\tdd = bb;\n\treturn (cc + dd);\n}\n"))
+    out.append(("defs.c", "#define second_value (1 + 2)\n#define F(x) (x)\n\nint\tg_d = second_value;\n"))
+    out.append(("iff.c", "#if 1\n# define A 1\n#elif 2\n# define A 2\n#endif\n\nint\tg_i = A;\n"))
     out.append(("utype.h", h("utype.h") + "\n#ifndef UTYPE_H\n# define UTYPE_H\n\ntypedef struct s_a\n{\n\tint\tx;\n}\tt_a;\n\n#endif\n"))
     return out
 
@@ -97,6 +104,38 @@ def run(res, tier, br, model_ok=True, search=False):
         # permuted listings: reversed and shuffled directory listing, all files in one go
         perms = [-1] + [rng.randint(1, 10 ** 6) for _ in range(6 if big else 2)]
         pres = pool.map(_w, [(fam, s) for s in perms])
+        # the same under settings of the host run: an option list shared by all files of the run (argparse gives
+        # ONE list object), and a process recursion limit that is not the interpreter's default
+        settings = [{"R": ["CheckDefine"]}, {"R": ["CheckForbiddenSourceHeader"]}, {"reclimit": 2600}, {"reclimit": 1700, "R": ["CheckDefine"]}]
+        sjobs = []
+        for st in settings:
+            seqs = [[sp0 + i for i in rng.sample(range(nsp), min(nsp, 6))] for _ in range(4 if big else 2)]
+            seqs += [[rng.randrange(len(fam)) for _ in range(rng.randint(2, 6))] for _ in range(6 if big else 2)]
+            for seq in seqs:
+                sjobs.append((st, seq, None))
+                for i in seq:
+                    sjobs.append((st, [i], i))
+        sres = pool.map(_wk, [([fam[i] for i in seq], st) for st, seq, _ in sjobs])
+    sref = {}
+    for (st, seq, single), r in zip(sjobs, sres):
+        if single is not None and "error" not in r:
+            sref[(json.dumps(st, sort_keys=True), single)] = r["files"][0]
+    for (st, seq, single), r in zip(sjobs, sres):
+        res.count("history.settings", 1)
+        files = [fam[i] for i in seq]
+        if "error" in r:
+            res.report("crash:worker", f"history {seq} under {st}: {r['error'][-200:]}", {"kind": "history", "files": files, "settings": st})
+            continue
+        for k, (i, fr) in enumerate(zip(seq, r["files"])):
+            if fr.get("process_state_changed"):
+                res.report("process-state-changed", f"{fam[i][0]} under {st}: the run changed {fr['process_state_changed']}",
+                           {"kind": "history", "files": files, "index": k, "settings": st})
+                break
+            want = sref.get((json.dumps(st, sort_keys=True), i))
+            if single is None and want is not None and fr != want:
+                res.report("history-dependent", f"{fam[i][0]} after {[x[0] for x in files[:k]]} under {st}: {diffdesc(want, fr)}",
+                           {"kind": "history", "files": files, "index": k, "alone": want, "in_history": fr, "settings": st})
+                break
     ref = {}
     for (name, src), b in zip(fam, base):
         res.count("alone", 1)
@@ -114,6 +153,9 @@ def run(res, tier, br, model_ok=True, search=False):
             res.report("crash:worker", f"history {seq}: {h['error'][-200:]}", {"kind": "history", "files": files})
             continue
         for k, (f, r) in enumerate(zip(files, h["files"])):
+            if r.get("process_state_changed"):
+                res.report("process-state-changed", f"{f[0]}: the run changed {r['process_state_changed']}", {"kind": "history", "files": files, "index": k})
+                break
             want = ref.get(tuple(f))
             if want is not None and r != want:
                 res.report("history-dependent", f"{f[0]} after {[x[0] for x in files[:k]]}: {diffdesc(want, r)}",
@@ -149,9 +191,13 @@ def diffdesc(a, b):
 def replay(rp):
     if rp.get("kind") == "history":
         files = [tuple(f) for f in rp["files"]]
-        h = run_worker([list(f) for f in files])
+        st = rp.get("settings") or {}
+        h = run_worker([list(f) for f in files], **st)
         k = rp.get("index", len(files) - 1)
-        alone = run_worker([list(files[k])])
+        alone = run_worker([list(files[k])], **st)
+        if h["files"][k].get("process_state_changed"):
+            print("process state changed by", files[k][0], ":", h["files"][k]["process_state_changed"])
+            return 1
         print("alone     :", alone["files"][0]); print("in history:", h["files"][k])
         return 0 if alone["files"][0] == h["files"][k] else 1
     if rp.get("kind") == "listing":
